@@ -7,8 +7,10 @@ budget on the three ways a static verdict can be wrong:
   2. blindness             - every confirmed seeded change of this property (seeded/<P>-n/patch.diff) is applied to a scratch copy of
                               the analysed tree; the check must report a violation on it (exit 1);
   3. brittleness           - behaviour-preserving variants of the analysed tree (re-printed source, re-formatted, methods
-                              re-ordered, every local renamed, comments inserted, template comments) must give the same verdict,
-                              the same known findings and the same obligation counts.
+                              re-ordered, every Python local and every template-local renamed, comments inserted) must give the
+                              same verdict, the same known findings and the same obligation counts; the real refactorings kept
+                              under refactors/ (extract helper, inverted branches, restructured macros, ...) must give the same
+                              verdict and the same known findings (their instance counts may legitimately move).
 A failure of the slice is an ANALYSIS-ERROR (exit 2), never a VIOLATION: it says the checker, not the repository, is at fault.
 Everything runs on scratch copies under $TMPDIR that are removed immediately; nothing of /repo is executed.
 """
@@ -88,6 +90,19 @@ def job_seed(prop: str, root: Path, seed: Path) -> dict:
         shutil.rmtree(d, ignore_errors=True)
 
 
+def job_refactor(prop: str, root: Path, ref: Path) -> dict:
+    d = scratch(root, ref.name)
+    try:
+        p = subprocess.run(["git", "apply", "--include", f"{PKG}/*", str(ref / "patch.diff")], cwd=d, capture_output=True, text=True)
+        if p.returncode != 0:
+            return {"kind": "refactor", "name": ref.name, "rc": None, "skipped": "patch does not apply to the analysed tree"}
+        rc, sig, out = run_check(prop, d)
+        rep = [l.strip()[:160] for l in out.splitlines() if l.startswith("  R") or l.startswith("ANALYSIS-ERROR")][:3]
+        return {"kind": "refactor", "name": ref.name, "rc": rc, "known": sig.get("known"), "reports": rep}
+    finally:
+        shutil.rmtree(d, ignore_errors=True)
+
+
 def run(prop: str, root: Path, base_rc: int) -> tuple[bool, dict]:
     """returns (ok, report). Only meaningful when the quick rules passed (base_rc == 0)."""
     import silent_variants as sv
@@ -103,6 +118,10 @@ def run(prop: str, root: Path, base_rc: int) -> tuple[bool, dict]:
         for seed in sorted((V / "seeded").glob(f"{prop}-*")):
             if (seed / "patch.diff").exists():
                 jobs.append(ex.submit(job_seed, prop, root, seed))
+        rdir = V / "refactors"
+        for ref in sorted(rdir.iterdir()) if rdir.is_dir() else []:
+            if (ref / "patch.diff").exists():
+                jobs.append(ex.submit(job_refactor, prop, root, ref))
         results = [j.result() for j in jobs]
     problems = []
     if base_rc2 != base_rc:
@@ -114,11 +133,15 @@ def run(prop: str, root: Path, base_rc: int) -> tuple[bool, dict]:
                 problems.append(f"{r['kind']} {r['name']}: rc={r['rc']} (expected {base_rc2}), differing: {json.dumps(diff, default=str)[:300]}")
         elif r["kind"] == "seed" and r.get("rc") is not None and r["rc"] != 1:
             problems.append(f"seeded change {r['name']} is not reported (rc={r['rc']})")
+        elif r["kind"] == "refactor" and r.get("rc") is not None and (r["rc"] != base_rc2 or r.get("known") != base.get("known")):
+            problems.append(f"behaviour-preserving refactoring {r['name']} changes the verdict (rc={r['rc']}): {r.get('reports')}")
     rep = {
         "base": base, "runs": len(results) + 1,
         "precision": [{"name": r["name"], "rc": r["rc"], "same_verdict": r["rc"] == base_rc2 and r["sig"] == base} for r in results if r["kind"] == "precision"],
         "silent_variants": [{"name": r["name"], "rc": r["rc"], "same_verdict": r["rc"] == base_rc2 and r["sig"] == base} for r in results if r["kind"] == "variant"],
         "seeded_changes": [{k: v for k, v in r.items() if k not in ("kind", "sig")} for r in results if r["kind"] == "seed"],
+        "refactorings": [{"name": r["name"], "rc": r.get("rc"), "same_verdict": r.get("rc") == base_rc2 and r.get("known") == base.get("known"),
+                          **({"skipped": r["skipped"]} if r.get("skipped") else {})} for r in results if r["kind"] == "refactor"],
         "problems": problems,
     }
     return not problems, rep
